@@ -487,7 +487,7 @@ RECURSIVE ApplySteps(_, _, _, _)
 ApplySteps(s, steps, i, orc) == IF i > Len(steps) THEN s ELSE ApplySteps(ApplyChainStep(s, steps[i], orc), steps, i + 1, orc)
 ApplyChain(s, ch, i, orc) == ApplySteps(s, ChainSteps(ch), i, orc)
 
-ApplyApi(s, o, orc) ==
+ApplyApi(s, o, orc, subLenient) ==
     CASE o.op = "register" -> LET x == RegisterF(s, o.u) IN [st |-> x.st, ok |-> ConcReplyOk(x.reply, o.reply, FALSE), sends |-> {}]
       [] o.op = "add" -> LET a == [l |-> o.l, blob |-> [key |-> o.key, pay |-> o.pay, size |-> o.size], tsd |-> o.tsd, ver |-> o.ver]
                              x == AddAppointmentF(s, o.who, a, orc)
@@ -497,13 +497,14 @@ ApplyApi(s, o, orc) ==
                          IN [st |-> [x.st EXCEPT !.appts = fix(@)], ok |-> ConcReplyOk(x.reply, o.reply, TRUE) /\ x.abort = "", sends |-> x.sends]
       [] o.op = "get" -> [st |-> s, ok |-> ConcReplyOk(GetAppointmentF(s, o.who, o.l), o.reply, FALSE), sends |-> {}]
       [] o.op = "sub" -> LET x == GetSubscriptionInfoF(s, o.who)
-                         IN [st |-> s, ok |-> ConcReplyOk(x, o.reply, FALSE) /\ (x.code = "ok" => x.locators = ToSetOf(o.reply.locators)), sends |-> {}]
+                         IN [st |-> s, ok |-> IF subLenient THEN x.code = o.reply.code
+                                         ELSE ConcReplyOk(x, o.reply, FALSE) /\ (x.code = "ok" => x.locators = ToSetOf(o.reply.locators)), sends |-> {}]
       [] OTHER -> [st |-> s, ok |-> FALSE, sends |-> {}]
 
 \* merged order: item k of the merged sequence is either chain step (k counts) or an API op; represented by a function
 \* pos : api ops -> 0..nsteps (the op runs after that many chain steps) and a permutation f breaking ties.
-RECURSIVE RunMerged(_, _, _, _, _, _, _, _, _)
-RunMerged(s, apis, f, pos, steps, done, i, orc, sent) ==
+RECURSIVE RunMerged(_, _, _, _, _, _, _, _, _, _)
+RunMerged(s, apis, f, pos, steps, done, i, orc, sent, subLenient) ==
     \* done = number of chain steps applied; i = index into the permuted api list; sent = transactions submitted so far
     IF i > Len(apis)
     THEN LET RECURSIVE Rest(_, _, _)
@@ -511,15 +512,15 @@ RunMerged(s, apis, f, pos, steps, done, i, orc, sent) ==
                                ELSE LET y == ChainStepX(x, steps[k], orc) IN Rest(y.st, k + 1, sn \cup y.sends)
          IN Rest(s, done + 1, sent)
     ELSE IF pos[f[i]] > done
-    THEN LET y == ChainStepX(s, steps[done + 1], orc) IN RunMerged(y.st, apis, f, pos, steps, done + 1, i, orc, sent \cup y.sends)
-    ELSE LET r == ApplyApi(s, apis[f[i]], orc)
-         IN IF ~r.ok THEN [st |-> s, ok |-> FALSE, sends |-> sent] ELSE RunMerged(r.st, apis, f, pos, steps, done, i + 1, orc, sent \cup r.sends)
+    THEN LET y == ChainStepX(s, steps[done + 1], orc) IN RunMerged(y.st, apis, f, pos, steps, done + 1, i, orc, sent \cup y.sends, subLenient)
+    ELSE LET r == ApplyApi(s, apis[f[i]], orc, subLenient)
+         IN IF ~r.ok THEN [st |-> s, ok |-> FALSE, sends |-> sent] ELSE RunMerged(r.st, apis, f, pos, steps, done, i + 1, orc, sent \cup r.sends, subLenient)
 
 ConcStateOk(x, log) ==
     /\ x.users = log.users /\ x.gk = log.gk /\ x.appts = log.appts
     /\ ProjT(x.trackers) = ProjT(log.trackers)
 
-Linearizable(s, ops, orc, ch, tip, log, sentObserved) ==
+LinearizableX(s, ops, orc, ch, tip, log, sentObserved, subLenient) ==
     LET apiIdx == {i \in 1..Len(ops) : ops[i].op # "poll"}
         apis == [k \in 1..Cardinality(apiIdx) |-> ops[CHOOSE i \in apiIdx : Cardinality({j \in apiIdx : j < i}) = k - 1]]
         polled == \E i \in 1..Len(ops) : ops[i].op = "poll"
@@ -534,9 +535,14 @@ Linearizable(s, ops, orc, ch, tip, log, sentObserved) ==
           /\ \A k \in 1..n : lo(k) <= pos[k] /\ pos[k] <= hi(k)
           \* an operation that returned before another one was invoked comes first
           /\ \A i, j \in 1..n : (i < j /\ "ret" \in DOMAIN apis[f[j]] /\ "inv" \in DOMAIN apis[f[i]]) => ~(apis[f[j]].ret < apis[f[i]].inv)
-          /\ LET r == RunMerged(s, apis, f, pos, steps, 0, 1, orc, {})
+          /\ LET r == RunMerged(s, apis, f, pos, steps, 0, 1, orc, {}, subLenient)
                  fin == IF polled THEN (IF Len(ch) = 0 THEN PollCommonF(r.st) ELSE PollOkF(r.st, tip)) ELSE r.st
              IN r.ok /\ ConcStateOk(fin, log) /\ r.sends = sentObserved
+
+Linearizable(s, ops, orc, ch, tip, log, sentObserved) == LinearizableX(s, ops, orc, ch, tip, log, sentObserved, FALSE)
+\* the same, not judging WHAT a get_subscription_info answered (only that it answered): used to tell the known read of an
+\* intermediate state (F-C10-3: new balance with the old list) from every other failure
+LinearizableButSub(s, ops, orc, ch, tip, log, sentObserved) == LinearizableX(s, ops, orc, ch, tip, log, sentObserved, TRUE)
 
 StepConc ==
     /\ Ev.act = "Conc"
@@ -562,7 +568,10 @@ StepConc ==
                 \cup (IF Ev.deadlock THEN T("C11", "deadlock") ELSE {})
                 \cup (IF Ev.timeout /\ ~Ev.deadlock THEN T("C11", "hung:conc") ELSE {})
                 \cup {<<l, "C11", "abort:" \o Ev.aborts[i][2]>> : i \in 1..Len(Ev.aborts)}
-                \cup (IF ~blocked /\ ~aborted /\ ~Linearizable(st, Ev.ops, orc, Ev.chain, Ev.tip, log, SendsOf(Ev.rpc)) THEN T("C10", "not_linearizable") ELSE {})
+                \cup (IF ~blocked /\ ~aborted /\ ~Linearizable(st, Ev.ops, orc, Ev.chain, Ev.tip, log, SendsOf(Ev.rpc))
+                      THEN T("C10", IF LinearizableButSub(st, Ev.ops, orc, Ev.chain, Ev.tip, log, SendsOf(Ev.rpc))
+                                    THEN "not_linearizable.subscription_info_only" ELSE "not_linearizable")
+                      ELSE {})
                 \cup (IF ~blocked /\ ~aborted THEN ConservationTags(grC, log) \cup Lift(C07_Copies(log)) ELSE {})
                 \cup (IF ~blocked /\ ~NoDangling(log) THEN T("C10", "orphan_record") ELSE {})
           /\ alive' = (alive /\ ~blocked /\ ~aborted)
